@@ -24,6 +24,25 @@ def Trans.ok (t : Trans) : Bool :=
   | .idle, .stopped => t.out
   | _, _ => false
 
+/-- the state the ghost log says module `m` is in: the target of its last recorded change, IDLE if it never changed -/
+def lastState (l : List Trans) (m : ModId) : MState :=
+  match (l.filter (fun t => t.m == m)).getLast? with
+  | some t => t.dst
+  | none => .idle
+
+theorem lastState_append_same (l : List Trans) (t : Trans) : lastState (l ++ [t]) t.m = t.dst := by
+  simp [lastState, List.filter_append]
+
+theorem lastState_append_other (l : List Trans) (t : Trans) (k : ModId) (h : t.m ≠ k) : lastState (l ++ [t]) k = lastState l k := by
+  have : (t.m == k) = false := by simp [h]
+  simp [lastState, List.filter_append, this]
+
+theorem lastState_fresh (l : List Trans) (k : ModId) (h : ∀ t ∈ l, t.m ≠ k) : lastState l k = .idle := by
+  have : l.filter (fun t => t.m == k) = [] := by
+    apply List.filter_eq_nil_iff.mpr
+    intro t ht; simp [h t ht]
+  simp [lastState, this]
+
 def runCount (l : List Sig) (id : Nat) : Nat := l.countP (fun g => g.state == .running && g.ctxId == id)
 
 structure Inv (s : St) : Prop where
@@ -33,6 +52,8 @@ structure Inv (s : St) : Prop where
     g.name = h.name → m = n
   fresh : (∀ (m : Nat) (g : Sig), s.sigs[m]? = some g → g.ctxId < s.nextCtx) ∧ (∀ c, s.ctx = some c → c.id < s.nextCtx)
   trans : ∀ t ∈ s.trans, t.ok = true
+  log : ∀ (m : Nat) (g : Sig), s.sigs[m]? = some g → lastState s.trans m = g.state
+  logm : ∀ t ∈ s.trans, t.m < s.sigs.length
 
 def Mono (a s : St) : Prop :=
   ∀ (m : Nat) (g : Sig), a.sigs[m]? = some g → ∃ g' : Sig, s.sigs[m]? = some g' ∧ (g.inCtx = false → g'.inCtx = false) ∧
@@ -51,7 +72,7 @@ theorem Mono.trans {a b c : St} (h1 : Mono a b) (h2 : Mono b c) : Mono a c := by
 theorem Inv.congr {s s' : St} (h1 : s'.sigs = s.sigs) (h2 : s'.ctx = s.ctx) (h3 : s'.nextCtx = s.nextCtx) (h : Inv s)
     (h4 : s'.trans = s.trans := by rfl) : Inv s' :=
   ⟨fun c hc => by rw [h1]; exact h.run c (by rw [← h2]; exact hc), by rw [h1]; exact h.out, by rw [h1]; exact h.names,
-   by rw [h1, h2, h3]; exact h.fresh, by rw [h4]; exact h.trans⟩
+   by rw [h1, h2, h3]; exact h.fresh, by rw [h4]; exact h.trans, by rw [h1, h4]; exact h.log, by rw [h1, h4]; exact h.logm⟩
 
 theorem Mono.congr_right {a s s' : St} (h1 : s'.sigs = s.sigs) (h : Mono a s) : Mono a s' := by
   unfold Mono; rw [h1]; exact h
@@ -70,7 +91,8 @@ theorem frameable : Frameable Inv Mono where
 
 theorem inv_init : Inv {} := by
   refine ⟨fun c h => by simp at h, fun m g h => by simp [St.sigs] at h, fun m n g h hg => by simp [St.sigs] at hg,
-    ⟨fun m g h => by simp [St.sigs] at h, fun c h => by simp at h⟩, fun t h => by simp at h⟩
+    ⟨fun m g h => by simp [St.sigs] at h, fun c h => by simp at h⟩, fun t h => by simp at h, fun m g h => by simp [St.sigs] at h,
+    fun t h => by simp at h⟩
 
 /-! ## Effect of the non-quiet primitives on the view -/
 
@@ -145,7 +167,8 @@ theorem Inv.setCurrOf {s : St} (m x) (h : Inv s) : Inv (setCurrOf m x s) := by
         subst hc; exact h.fresh.2 c0 hcx
       · simp only [hid, Bool.false_eq_true, if_false, Option.some.injEq] at hc
         subst hc; exact h.fresh.2 c0 hcx
-  refine ⟨fun c hc => ?_, by simpa using h.out, by simpa using h.names, hfresh, by rw [setCurrOf_trans]; exact h.trans⟩
+  refine ⟨fun c hc => ?_, by simpa using h.out, by simpa using h.names, hfresh, by rw [setCurrOf_trans]; exact h.trans,
+    by rw [setCurrOf_trans, setCurrOf_sigs]; exact h.log, by rw [setCurrOf_trans, setCurrOf_sigs]; exact h.logm⟩
   simp only [setCurrOf_sigs]
   unfold Lm.Core.setCurrOf at hc
   rw [updCtxId_ctx] at hc
@@ -199,10 +222,28 @@ theorem inv_set (s s' : St) (m : ModId) (g g' : Sig) (hI : Inv s) (hg : s.sigs[m
     (hout : g'.inCtx = false → g'.state = .stopped ∨ g'.state = .zombie)
     (hrun : ∀ c, s'.ctx = some c → c.running = runCount (s.sigs.set m g') c.id)
     (hcid : g'.ctxId = g.ctxId) (hnext : s'.nextCtx = s.nextCtx) (hctxid : ∀ c, s'.ctx = some c → ∃ c0, s.ctx = some c0 ∧ c0.id = c.id)
-    (htr : ∀ t ∈ s'.trans, t.ok = true) :
+    (htr : ∀ t ∈ s'.trans, t.ok = true) (hlogt : ∃ t : Trans, s'.trans = s.trans ++ [t] ∧ t.m = m ∧ t.dst = g'.state) :
     Inv s' := by
   have hlt : m < s.sigs.length := (List.getElem?_eq_some_iff.mp hg).1
-  refine ⟨fun c hc => by rw [hs]; exact hrun c hc, ?_, ?_, ?_, htr⟩
+  obtain ⟨t0, ht0, htm, htd⟩ := hlogt
+  have hlog : ∀ (k : Nat) (g1 : Sig), s'.sigs[k]? = some g1 → lastState s'.trans k = g1.state := by
+    intro k g1 hk
+    rw [hs, getElem?_set_sig _ _ _ _ hlt] at hk
+    rw [ht0]
+    by_cases hmk : m = k
+    · simp [hmk] at hk; subst hk
+      rw [← hmk, ← htm, lastState_append_same, htd]
+    · simp [hmk] at hk
+      rw [lastState_append_other _ _ _ (by rw [htm]; exact hmk)]
+      exact hI.log k g1 hk
+  have hlogm : ∀ t ∈ s'.trans, t.m < s'.sigs.length := by
+    intro t ht
+    rw [hs, List.length_set]
+    rw [ht0] at ht
+    rcases List.mem_append.mp ht with h1 | h1
+    · exact hI.logm t h1
+    · simp at h1; subst h1; rw [htm]; exact hlt
+  refine ⟨fun c hc => by rw [hs]; exact hrun c hc, ?_, ?_, ?_, htr, hlog, hlogm⟩
   rotate_left 2
   · rw [hs, hnext]
     refine ⟨fun k g1 hk => ?_, fun c hc => ?_⟩
@@ -338,7 +379,9 @@ theorem inv_stop (s : St) (m : ModId) (g : Sig) (x : MState) (leave : Bool) (hI 
     · subst hx
       simp [Trans.ok, hst, hp rfl]
   refine inv_set s _ m g (g.stopped x leave) hI hg (stopStep_sigs s m g x leave hg) rfl ?_ ?_ ?_ rfl
-    (stopStep_nextCtx s m x leave) ?_ htr
+    (stopStep_nextCtx s m x leave) ?_ htr (by
+      obtain ⟨md, hmd, _⟩ := mod_of_sig s m g hg
+      exact ⟨_, stopStep_trans s m x leave md hmd, rfl, by cases leave <;> simp [Sig.stopped, Sig.setState]⟩)
   rotate_left 3
   · intro c hc
     rw [stopStep_ctx] at hc
@@ -409,7 +452,10 @@ theorem inv_start (s : St) (m : ModId) (g : Sig) (hI : Inv s) (hg : s.sigs[m]? =
   refine inv_set s _ m g (g.setState .running) hI hg hsig rfl (fun _ => hin) (fun h => by simp [Sig.setState, hin] at h) ?_ rfl
     (by simp) (fun c hc => by
       simp only [setState_ctx] at hc
-      exact updCtxId_ctx_id s _ _ c hc (fun _ => rfl)) htr
+      exact updCtxId_ctx_id s _ _ c hc (fun _ => rfl)) htr (by
+      obtain ⟨md, hmd, _⟩ := mod_of_sig s m g hg
+      exact ⟨{ m := m, src := md.state, dst := .running, out := !md.inCtx },
+        by rw [setState_trans _ m .running md (by simpa using hmd)]; simp, rfl, by simp [Sig.setState]⟩)
   intro c hc
   simp only [setState_ctx] at hc
   rw [updCtxId_ctx] at hc
@@ -450,7 +496,9 @@ theorem inv_zombie (s : St) (m : ModId) (g : Sig) (hI : Inv s) (hg : s.sigs[m]? 
     refine trans_ok_append hI.trans ?_
     cases hmst : md.state <;> simp [Trans.ok, hmst]
   refine inv_set s _ m g (g.setState .zombie) hI hg hsig rfl (fun h => h) (fun _ => Or.inr rfl) ?_ rfl
-    (by simp) (fun c hc => ⟨c, by simpa using hc, rfl⟩) htr
+    (by simp) (fun c hc => ⟨c, by simpa using hc, rfl⟩) htr (by
+      obtain ⟨md, hmd, _⟩ := mod_of_sig s m g hg
+      exact ⟨_, setState_trans s m .zombie md hmd, rfl, by simp [Sig.setState]⟩)
   intro c hc
   simp only [setState_ctx] at hc
   have h0 := hI.run c hc
@@ -491,7 +539,8 @@ theorem updCtx_ctx (s : St) (f) : (s.updCtx f).ctx = s.ctx.map f := by
 /-- a context update that touches neither the identity nor the running counter -/
 theorem inv_updCtx (s : St) (f : Ctx → Ctx) (hid : ∀ c, (f c).id = c.id) (hrun : ∀ c, (f c).running = c.running)
     (hI : Inv s) : Inv (s.updCtx f) := by
-  refine ⟨fun c hc => ?_, by simpa using hI.out, by simpa using hI.names, ?_, by rw [updCtx_trans]; exact hI.trans⟩
+  refine ⟨fun c hc => ?_, by simpa using hI.out, by simpa using hI.names, ?_, by rw [updCtx_trans]; exact hI.trans,
+    by rw [updCtx_trans, updCtx_sigs]; exact hI.log, by rw [updCtx_trans, updCtx_sigs]; exact hI.logm⟩
   · rw [updCtx_ctx] at hc
     cases hcx : s.ctx with
     | none => simp [hcx] at hc
@@ -508,7 +557,7 @@ theorem inv_updCtx (s : St) (f : Ctx → Ctx) (hid : ∀ c, (f c).id = c.id) (hr
 
 /-- releasing the context -/
 theorem inv_ctx_none (s : St) (d : List Ctx) (hI : Inv s) : Inv { s with ctx := none, deadCtx := d } :=
-  ⟨fun c hc => by simp at hc, hI.out, hI.names, ⟨hI.fresh.1, fun c hc => by simp at hc⟩, hI.trans⟩
+  ⟨fun c hc => by simp at hc, hI.out, hI.names, ⟨hI.fresh.1, fun c hc => by simp at hc⟩, hI.trans, hI.log, hI.logm⟩
 
 theorem runCount_fresh (l : List Sig) (id : Nat) (h : ∀ (m : Nat) (g : Sig), l[m]? = some g → g.ctxId < id) : runCount l id = 0 := by
   unfold runCount
@@ -523,7 +572,7 @@ theorem runCount_fresh (l : List Sig) (id : Nat) (h : ∀ (m : Nat) (g : Sig), l
 /-- a fresh context -/
 theorem inv_ctx_new (s : St) (c : Ctx) (hI : Inv s) (hid : c.id = s.nextCtx) (hr : c.running = 0) :
     Inv { s with ctx := some c, nextCtx := s.nextCtx + 1 } := by
-  refine ⟨fun c' hc => ?_, hI.out, hI.names, ⟨fun m g hg => Nat.lt_succ_of_lt (hI.fresh.1 m g hg), fun c' hc => ?_⟩, hI.trans⟩
+  refine ⟨fun c' hc => ?_, hI.out, hI.names, ⟨fun m g hg => Nat.lt_succ_of_lt (hI.fresh.1 m g hg), fun c' hc => ?_⟩, hI.trans, hI.log, hI.logm⟩
   · simp at hc; subst hc
     show c.running = runCount s.sigs c.id
     rw [hr, hid, runCount_fresh s.sigs s.nextCtx hI.fresh.1]
@@ -548,7 +597,7 @@ theorem inv_append (s : St) (md : Mod) (c : Ctx) (hI : Inv s) (hc : s.ctx = some
       · simp only [h1, h2, if_false]
         apply List.getElem?_eq_none
         simp; omega
-  refine ⟨fun c' hc' => ?_, ?_, ?_, ?_, hI.trans⟩
+  refine ⟨fun c' hc' => ?_, ?_, ?_, ?_, hI.trans, ?_, ?_⟩
   · rw [hs]
     have : c' = c := by
       have : s.ctx = some c' := hc'
@@ -593,6 +642,22 @@ theorem inv_append (s : St) (md : Mod) (c : Ctx) (hI : Inv s) (hc : s.ctx = some
     · by_cases h2 : k = s.sigs.length
       · simp [h2] at hk; subst hk; simp [Mod.sig, hcid]; exact hI.fresh.2 c hc
       · simp [h1, h2] at hk
+  · rw [hs]
+    intro k g hk
+    rw [hget] at hk
+    show lastState s.trans k = g.state
+    by_cases h1 : k < s.sigs.length
+    · simp only [h1, if_true] at hk; exact hI.log k g hk
+    · by_cases h2 : k = s.sigs.length
+      · simp [h2] at hk; subst hk
+        rw [lastState_fresh s.trans k (fun t ht => Nat.ne_of_lt (by rw [h2]; exact hI.logm t ht))]
+        simp [Mod.sig, hst]
+      · simp [h1, h2] at hk
+  · rw [hs]
+    intro t ht
+    have h := hI.logm t ht
+    rw [List.length_append]
+    exact Nat.lt_of_lt_of_le h (Nat.le_add_right _ _)
 
 theorem Mono_append (a s : St) (md : Mod) (h : Mono a s) : Mono a { s with mods := s.mods ++ [md] } := by
   intro k g hk
